@@ -204,3 +204,15 @@ Print Assumptions C16_trailing_accepted_len.
 Theorem C16_trailing_example : trail_example_ok = true.
 Proof. exact trail_example. Qed.
 Print Assumptions C16_trailing_example.
+
+(* ---- the documented extensions are accepted in default mode with VALIDATE_UTF8 as well (TokValidUtf8.v) ---- *)
+From JC Require Import TokStream2 TokValidUtf8.
+Theorem C16_default_accepts_ext_utf8 : forall sb D x lead trail t,
+  wf_xstx x -> wf_xws lead = true -> wf_xws trail = true ->
+  Z.of_nat (xnest x) < D -> xints_in_range x = true -> xnames_nul_free x = true ->
+  u8scan 0 (render_xdoc lead x trail) = Some 0 ->
+  tok_new D false false true = Some t ->
+  exists t', parse_ex_cstr sb t (render_xdoc lead x trail) = PR t' (Some (xvalue sb x)) /\
+             err t' = TE_success /\ char_offset t' = zlen (render_xdoc lead x trail).
+Proof. exact default_accepts_ext_utf8. Qed.
+Print Assumptions C16_default_accepts_ext_utf8.
